@@ -285,6 +285,27 @@ def check_thread_safe_vector(chk, lib):
     # V2: who may flip a slot flag
     allowed_unlock = {"free_element", "clear", "clear_after"}
     allowed_lock = {"get_free_element", "get_free_element_safe", "get_free_elements"}
+    # a private helper that is called only by allowed methods belongs to them (an extracted acquire / release loop)
+    callers = {}
+    for name, fns in ms.items():
+        for fn in fns:
+            if not fn.get("body"):
+                continue
+            for x in C.walk_stmt(fn["body"]):
+                if C.is_call(x) and (x.get("fn") or "").split("::")[0].startswith("ThreadSafeVector") and \
+                        (x.get("obj") is None or C.strip_casts(x["obj"]).get("k") == "This"):
+                    callers.setdefault(x["n"], set()).add(name)
+    changed = True
+    while changed:
+        changed = False
+        for name, fns in ms.items():
+            if all(fn.get("access") == "private" for fn in fns) and callers.get(name):
+                for allowed in (allowed_lock, allowed_unlock):
+                    if name not in allowed and callers[name] <= allowed:
+                        allowed.add(name)
+                        changed = True
+    helper_acquirers = [nm for nm in allowed_lock if nm not in ("get_free_element", "get_free_element_safe",
+                                                                "get_free_elements")]
     sites = 0
     for name, fns in ms.items():
         for fn in fns:
@@ -303,11 +324,18 @@ def check_thread_safe_vector(chk, lib):
            "src/ThreadSafeVector.hpp")
     chk.floor("V2", sites, 6)
     # V1 / V3 on the acquiring methods
-    for name in ("get_free_element", "get_free_element_safe"):
+    for name in helper_acquirers + ["get_free_element", "get_free_element_safe"]:
         for fn in ms.get(name, []):
+            if not fn.get("body"):
+                continue
             chk.analysed(function=fn["full"])
             g = C.CFG(fn)
             idx_vars = set()
+
+            def helper_call(e):
+                e = C.strip_casts(e)
+                return e is not None and C.is_call(e) and e.get("n") in helper_acquirers and \
+                    (e.get("obj") is None or C.strip_casts(e["obj"]).get("k") == "This")
 
             def lock_target(e):
                 e = C.strip_casts(e)
@@ -325,10 +353,28 @@ def check_thread_safe_vector(chk, lib):
                     t = lock_target(node.ast)
                     if t is not None:
                         return [(True, (t, counted)), (False, (None, counted))]
-                if node.kind in ("stmt", "decl") and node.ast.get("k") != "Abort":
+                if node.kind in ("stmt", "decl", "return") and node.ast.get("k") != "Abort":
                     body = node.ast
-                    for x in C.walk(body if node.kind == "stmt" else {"k": "Decl", "d": body["d"]}):
-                        if x.get("k") == "Bin" and x["op"] in ("=", "+=", "-=") and C.ref_key(x["a"]) == confirmed:
+                    wrapped = body if node.kind == "stmt" else ({"k": "Decl", "d": body["d"]} if node.kind == "decl" else
+                                                                (body.get("x") or {"k": "Null"}))
+                    for x in C.walk(wrapped):
+                        if helper_call(x):
+                            # a helper proven (V1 / V3 on the helper itself) to return a confirmed, counted slot
+                            counted = min(3, counted + 1) if counted != 99 else 99
+                            if node.kind == "return" and C.strip_casts(body.get("x")) is x:
+                                confirmed = ("call",)
+                            elif node.kind == "decl":
+                                for d in body["d"]:
+                                    if d.get("init") is not None and C.strip_casts(d["init"]) is x:
+                                        confirmed = ("local", d["id"], d["n"])
+                            elif x is not None and node.kind == "stmt" and body.get("k") == "Bin" and body["op"] == "=" and \
+                                    C.strip_casts(body["b"]) is x:
+                                confirmed = C.ref_key(body["a"])
+                    if node.kind == "return":
+                        return [(None, (confirmed, counted))]
+                    for x in C.walk(wrapped):
+                        if x.get("k") == "Bin" and x["op"] in ("=", "+=", "-=") and C.ref_key(x["a"]) == confirmed and \
+                                not helper_call(x["b"]):
                             confirmed = None
                         if x.get("k") == "Un" and x["op"] in ("pre++", "post++", "pre--", "post--") and \
                                 C.ref_key(x["x"]) == confirmed:
@@ -357,7 +403,12 @@ def check_thread_safe_vector(chk, lib):
                                                        "is lost" if st[1] == 99 else "%+d" % st[1]),
                                     function=fn["full"], construct="sentinel path count")
                     else:
-                        chk.require(st[0] is not None and st[0] == C.ref_key(rv), "V1",
+                        st_after = st
+                        if helper_call(rv):
+                            st_after = (("call",), min(3, st[1] + 1) if st[1] != 99 else 99)
+                        st = st_after
+                        chk.require(st[0] is not None and (st[0] == C.ref_key(rv) or (st[0] == ("call",) and helper_call(rv))),
+                                    "V1",
                                     "%s returns an index whose flag it has won" % fn["full"], where(node.ast, fn),
                                     "the returned index is not confirmed by a successful _locks[index].lock() "
                                     "(path through lines %s): two requesters can receive the same slot" %
